@@ -247,7 +247,7 @@ func genC13(g *Gen, tier string) *Program {
 	if tier == "thorough" {
 		r = [2]int{4, 24}
 	}
-	genM3(g, p, m3GenOpts{nameLen: []int{3, 8, 20}, maxTags: 4, tasks: [2]int{1, 3}, reports: r, collide: true})
+	genM3(g, p, m3GenOpts{nameLen: []int{3, 8, 20}, maxTags: pick(g, 4, 8, 12, 18), tasks: [2]int{1, 3}, reports: r, collide: true, bursts: g.Bool(30)})
 	if g.Bool(30) {
 		p.Cfg.Faults.SendFail = []int{g.Range(1, 3)}
 	}
@@ -538,6 +538,7 @@ func checkC13(env *Env) []Violation {
 	type bk struct {
 		upper float64
 		id    string
+		rng   string
 	}
 	per := map[string][]bk{}
 	st := env.m3()
@@ -554,7 +555,11 @@ func checkC13(env *Env) []Violation {
 						if e.h.parent.spec.Dur {
 							u = float64(e.h.upperD)
 						}
-						per[e.h.parent.name+tagsKey(e.h.parent.tags)] = append(per[e.h.parent.name+tagsKey(e.h.parent.tags)], bk{u, m.tags[idTag]})
+						bkTag := st.cfg.BucketName
+						if bkTag == "" {
+							bkTag = "bucket"
+						}
+						per[e.h.parent.name+tagsKey(e.h.parent.tags)] = append(per[e.h.parent.name+tagsKey(e.h.parent.tags)], bk{u, m.tags[idTag], m.tags[bkTag]})
 					}
 				}
 			}
@@ -563,6 +568,13 @@ func checkC13(env *Env) []Violation {
 	for name, list := range per {
 		for i := range list {
 			for j := range list {
+				// one bucket, one pair of bucket tags; different buckets, different tags
+				if list[i].upper == list[j].upper && (list[i].id != list[j].id || list[i].rng != list[j].rng) {
+					a.out = append(a.out, vf("bucket-tags-mixed", "histogram %s: two samples of the bucket with bound %v were emitted with different bucket tags (%q/%q vs %q/%q)", name, list[i].upper, list[i].id, list[i].rng, list[j].id, list[j].rng))
+				}
+				if list[i].upper != list[j].upper && (list[i].id == list[j].id || list[i].rng == list[j].rng) {
+					a.out = append(a.out, vf("bucket-tags-mixed", "histogram %s: samples of the buckets with bounds %v and %v were emitted with the same bucket tags (%q/%q)", name, list[i].upper, list[j].upper, list[i].id, list[i].rng))
+				}
 				if list[i].upper < list[j].upper && !(list[i].id < list[j].id) {
 					a.out = append(a.out, vf("bucket-id-order", "histogram %s: bucket with bound %v has id %q, bucket with bound %v has id %q", name, list[i].upper, list[i].id, list[j].upper, list[j].id))
 				}
